@@ -26,6 +26,9 @@ def demo_cmds(mdir):
         if l.startswith("$ "):
             l = l[2:]
         if re.match(r"^(cp |go test|go run|cd |mkdir )", l) and "export " not in l:
+            l = l.replace("<repo>/", "").replace("cd <repo> && ", "").replace("cd <repo>; ", "")
+            if l.strip() in ("cd <repo>", ""):
+                continue
             cmds.append(l)
     return cmds
 
